@@ -167,6 +167,11 @@ def run_property(prop, level, fn, argv, explanation, rule_text, trusted_base, as
             fn(ctx, rep)
         except extract.BuildError as e:
             rep.bad("BUILD", "fact-extraction", str(e))
+        except Exception:  # fail closed, but diagnosably: a rule met a construct it cannot handle
+            import traceback
+
+            tb = traceback.format_exc()
+            rep.bad("ANALYSIS-ERROR", "internal", "the analysis could not be completed on this tree (fail closed): " + tb.strip().splitlines()[-1], None, None, detail=tb)
     rep.finalize()
 
     known = load_known()
